@@ -205,6 +205,20 @@ func runRespHistory(t testing.TB, ops []string) string {
 				res += "!still-registered"
 			}
 			out = append(out, res)
+		case op == "un": // a USER actor that happens to be named like the next response PID (kind "response", id = next number)
+			next := responseSeq.Load() + 1
+			user := e.SpawnFunc(func(c *Context) {}, "response", WithID(strconv.FormatUint(next, 10)))
+			r := e.Request(sink.pid, vUser{0}, 25*time.Millisecond) // its Response draws that id: a duplicate, refused
+			_, _ = r.Result()
+			res := "user-actor-kept"
+			if e.Registry.get(user) == nil {
+				res = "user-actor-UNREGISTERED" // a refused duplicate must leave the existing actor untouched (C10)
+			}
+			evs.mu.Lock()
+			evs.dup = 0
+			evs.mu.Unlock()
+			<-e.Poison(user).Done()
+			out = append(out, res)
 		case op == "zt": // a request with a zero timeout to a target that never replies: an error, promptly
 			silent := e.SpawnFunc(func(c *Context) {}, "verifzt", WithID(strconv.Itoa(len(out))))
 			res := "BLOCKED"
@@ -370,6 +384,7 @@ func TestVerifResp(t *testing.T) {
 	emit("edge", []string{"ed" + strconv.Itoa(vgen.Scale(12, 60)), "qi3", "rq", "rp0v4", "rs0"})
 	emit("silent", []string{"sl", "qi4", "sl"})
 	emit("ctxreq", []string{"cq", "zt", "qi2", "cq"})
+	emit("namesake", []string{"un", "qi1", "un"})
 	emit("conc", []string{"cc" + strconv.Itoa(vgen.Scale(16, 64)) + "x" + strconv.Itoa(vgen.Scale(400, 2000)), "qi5", "cc2x50", "qi9"})
 	r := vgen.NewRng(vgen.Seed())
 	n := vgen.Scale(500, 4000)
